@@ -254,6 +254,7 @@ class uninstall(base):
         if getattr(self, "underway", False):
             logger.warning(f"{self.old_pkg} unmerge was underway, but wasn't completed")
             self.lock.release_write_lock()
+        self.clean_tempdir()
 
 
 class replace(install, uninstall):
@@ -328,3 +329,4 @@ class replace(install, uninstall):
                 "wasn't completed"
             )
             self.lock.release_write_lock()
+        self.clean_tempdir()
